@@ -107,7 +107,7 @@ impl Campaign for KeyCampaign {
     ctx.acc.count("steps", obs.steps);
     ctx.acc.count("mappings_fired", obs.fired);
     ctx.acc.count("ignored_events", obs.ignored);
-    ctx.acc.probe_n("absorbing_mapping_fired", obs.p_absorb_fired);
+    if self.absorbing != Some(false) { ctx.acc.probe_n("absorbing_mapping_fired", obs.p_absorb_fired); }
     ctx.acc.probe_n("special_mapping_fired", obs.p_special_fired);
     ctx.acc.probe_n("disabled_mapping_fired", obs.p_norepeat_fired);
     ctx.acc.probe_n("press_swallowed", obs.p_swallowed);
@@ -132,7 +132,7 @@ impl Campaign for KeyCampaign {
       }
       Err(p) => { sut_panic = Some(p); None }
     };
-    RunResult { failure, nontrivial: nt, case_hash: hash, state_hashes: obs.state_hashes, sample, digest: obs.digest, sut_panic }
+    RunResult { failure, nontrivial: nt, case_hash: hash, state_hashes: obs.state_hashes, sample, digest: obs.digest, sut_panic, harness_error: None, evals: 1 }
   }
   fn replay(&self, case: &Value) -> Result<Option<Violation>, String> {
     let c = CaseA::from_json(case)?;
